@@ -685,7 +685,7 @@ ZDICT_optimizeTrainFromBuffer_fastCover(
     /* Loop through d first because each new value needs a new context */
     LOCALDISPLAYLEVEL(displayLevel, 2, "Trying %u different sets of parameters\n",
                       kIterations);
-    for (d = kMinD; d <= kMaxD; d += 2) {
+    for (d = kMinD; d <= kMaxD && d >= kMinD; d += 2) {
       /* Initialize the context for this value of d */
       FASTCOVER_ctx_t ctx;
       LOCALDISPLAYLEVEL(displayLevel, 3, "d=%u\n", d);
@@ -703,7 +703,7 @@ ZDICT_optimizeTrainFromBuffer_fastCover(
         warned = 1;
       }
       /* Loop through k reusing the same context */
-      for (k = kMinK; k <= kMaxK; k += kStepSize) {
+      for (k = kMinK; k <= kMaxK && k >= kMinK; k += kStepSize) {
         /* Prepare the arguments */
         FASTCOVER_tryParameters_data_t *data = (FASTCOVER_tryParameters_data_t *)malloc(
             sizeof(FASTCOVER_tryParameters_data_t));
